@@ -83,6 +83,20 @@ CHECKS = {
         "note": TRUST + " Known findings mask changes that only affect the listed cells.",
         "technique": "character x path x origin family enumerated by TLC + trace validation of real runs against the TLA+ machine (identity on data)",
     },
+    "C17": {
+        "text": "TLC enumerates spec/FamC17.tla (all one- and two-step, reduced three-step histories of write/append/read/exists over four paths incl. a blank and a sub-directory, "
+                "several contents and append-flag forms, top level and function) and validates stdout, status, stderr and the final directory of every recorded Bash run against "
+                "TshDyn's fs; WriteLocal (a write changes exactly one path) and LineStore are checked by TLC on every transition/state.",
+        "note": TRUST,
+        "technique": "operation-history family enumerated by TLC + trace validation of real runs (incl. final file system) against the TLA+ machine",
+    },
+    "C18": {
+        "text": "TLC enumerates spec/FamC18.tla (argument classes x forms x positions, pipelines of 1..3 commands, exit statuses, statement/captured, top level/function) and validates, "
+                "for every recorded Bash run, the probe's invocation log (argv and stdin of every command), stdout, captured output and status against TshDyn!ApplyAppCall. "
+                "Argument classes that fail on the unchanged tree are known findings K10/K11.",
+        "note": TRUST + " The probe command reports argv/stdin faithfully.",
+        "technique": "argument/pipeline family enumerated by TLC + trace validation of recorded command invocations against the TLA+ machine",
+    },
 }
 
 NOT_APPLICABLE = {}
